@@ -1376,3 +1376,8 @@ VP("C19-R3A-twin-exists-on-expanded", "C19", "clean-up of a *new* partial file, 
 V("C19-backup-rename-before-dumps", "C19", "previous file renamed away before serialisation", CORE,
   "        content = self.dumps(format, **kwargs)\n        filename = os.path.expanduser(filename)\n",
   "        filename = os.path.expanduser(filename)\n        if os.path.exists(filename):\n            os.rename(filename, filename + '.bak')\n        content = self.dumps(format, **kwargs)\n")
+VP("C19-R3D-mut-options-lose-mask", "C10", "options dict handed to nested to_tree without the mask", "C19-R3D", CORE,
+   'options = {"virtual": virtual, "sensitive_mask": sensitive_mask}', 'options = {"virtual": virtual}')
+VP("C19-R3D-mut-config-list-never", "C10", "helper deciding 'list of configurations' rejects every list: lists of configurations go to the encoder unmasked", "C19-R3D", CORE,
+   "        if not isinstance(value, list) or not value:\n            return False\n        return not any(",
+   "        if isinstance(value, list) or not value:\n            return False\n        return not any(")
